@@ -67,4 +67,18 @@ def getIntSetD38 (m env : KV) (k d deli : Str) : List Int :=
       | some _ => none
       | none => some (wrap32 (atoiErrValue (trimSpace x))))
 
+/-- `getFloat`: the decision structure with strconv.ParseFloat(·, 32) as a parameter -/
+def getFloat {F : Type} (parseFloat : Str → Option F) (m env : KV) (k : Str) (d : F) : F :=
+  getParsed parseFloat m env k d
+
+/-- the tokens `GetStringHashSet` / `GetStringHashCodeSet` hash: every token of the value (or of the
+    default), trimmed — empty tokens included (`Tokenizer("")` = `[""]`) -/
+def hashTokens (m env : KV) (k d deli : Str) : List Str :=
+  (tokenizer (getValueDef m env k d) deli).map trimSpace
+
+/-- `GetStringHashSet` (hash = hash.HashStr) and `GetStringHashCodeSet` (hash = int32 ∘ stringutil.HashCode)
+    with the hash function as a parameter -/
+def getHashSet (hash : Str → Int) (m env : KV) (k d deli : Str) : List Int :=
+  (hashTokens m env k d deli).map hash
+
 end Conf
